@@ -663,6 +663,9 @@ def check(facts, rep, tier, cfg):
                             "canonical) the socket and the target belong to different families and connect/send_to fails, so the "
                             "target is never reached" % (path, fam, fam))
         rep.floor("C01.R13", "family-specific outgoing sockets in the server", k13, 4)
+    rep.rule("C01.S7", "who-may: the functions that touch the critical resources behind this property are those of the reference tree (flow table, closed flag, per-stream / datagram / outbound queues, last-pong timestamp, client id maps, shared TLS identity)")
+    import whomay
+    whomay.check(facts, rep, "C01.S7", "C01")
 
 
 def norm_ty_is_sockaddr(b, l):
